@@ -161,7 +161,7 @@ def key_of(v):
     if v.k == 'enumv':
         raise NeedConcreteMember(v)
     if v.k == 'func':
-        return ('f', id(v.t))
+        return ('f', v.t.builtin) if getattr(v.t, 'builtin', None) else ('f', id(v.t))
     raise Unsupported(f'symbolic value {v} used as dictionary key / concrete member')
 
 
